@@ -300,6 +300,65 @@ func (c *FuncCtx) singleDef(o types.Object) ast.Expr {
 	return nil
 }
 
+// defBefore: the value o holds at pos when it has several definitions — the nearest plain assignment
+// to o among the statements that precede pos in the innermost block around pos, provided no statement
+// between that assignment and pos assigns o again (nested or not).
+func (c *FuncCtx) defBefore(o types.Object, pos token.Pos) ast.Expr {
+	if c.FI == nil || c.FI.Decl.Body == nil || !pos.IsValid() {
+		return nil
+	}
+	var inner *ast.BlockStmt
+	ast.Inspect(c.FI.Decl.Body, func(n ast.Node) bool {
+		if b, ok := n.(*ast.BlockStmt); ok && b.Pos() <= pos && pos < b.End() {
+			inner = b
+		}
+		return true
+	})
+	if inner == nil {
+		return nil
+	}
+	assigns := func(n ast.Node) bool {
+		found := false
+		ast.Inspect(n, func(m ast.Node) bool {
+			switch v := m.(type) {
+			case *ast.AssignStmt:
+				for _, l := range v.Lhs {
+					if id, ok := l.(*ast.Ident); ok && c.Info.ObjectOf(id) == o {
+						found = true
+					}
+				}
+			case *ast.IncDecStmt:
+				if id, ok := v.X.(*ast.Ident); ok && c.Info.ObjectOf(id) == o {
+					found = true
+				}
+			}
+			return true
+		})
+		return found
+	}
+	var def ast.Expr
+	for _, s := range inner.List {
+		if s.Pos() >= pos {
+			break
+		}
+		if as, ok := s.(*ast.AssignStmt); ok && len(as.Lhs) == len(as.Rhs) && (as.Tok == token.ASSIGN || as.Tok == token.DEFINE) {
+			hit := false
+			for i, l := range as.Lhs {
+				if id, ok := l.(*ast.Ident); ok && c.Info.ObjectOf(id) == o {
+					def, hit = as.Rhs[i], true
+				}
+			}
+			if hit {
+				continue
+			}
+		}
+		if assigns(s) {
+			def = nil
+		}
+	}
+	return def
+}
+
 func rootIdent(e ast.Expr) *ast.Ident {
 	for {
 		switch v := ast.Unparen(e).(type) {
